@@ -911,7 +911,7 @@ class LaneTranslator:
         if node.kind == "vec":
             ln = self.fresh(name)
             self.lets.append((ln, node.text))
-            node = LNode("vec", ln)
+            node = LNode("vec", ln, const=node.const)   # a named `set1` constant stays a constant
         self.memo[key] = node
         return node
 
